@@ -241,6 +241,7 @@ fn main() {
         for (i, b) in text.iter().enumerate() {
             if let Err(e) = m.consume_token(*b as u32) { println!("byte {i} rejected: {e}"); return; }
         }
+        if let Some(tp) = m.verif_token_parser() { for (i, l) in tp.parser.verif_lexemes().iter().enumerate() { println!("lexeme {i}: {:?}", l); } println!("state {:?}", tp.parser.verif_state().lexer_top); }
         println!("accepting={:?} stopped={}", m.is_accepting(), m.is_stopped());
         println!("mask={:?}", eng::mask_of(&mut m).map(|v| v.iter().map(|t| *t as u8 as char).collect::<String>()));
         let t0 = std::time::Instant::now();
